@@ -1,6 +1,7 @@
 package vm
 
 import (
+	"bytes"
 	"math/big"
 
 	"github.com/pkg/errors"
@@ -109,6 +110,19 @@ func (vm *VM) applyBlock(block *nom.AccountBlock) error {
 		computed := generated.ComputeHash()
 		if computed != block.Hash {
 			return errors.Errorf("auto-received block has different hash expected %v but got %v", computed, generated)
+		}
+		// the hash does not cover every stored field (plasma, keys and signatures, also of the batched
+		// sends): the block is stored as delivered, so it must be the generated one byte for byte
+		expected, err := generated.Serialize()
+		if err != nil {
+			return err
+		}
+		received, err := block.Serialize()
+		if err != nil {
+			return err
+		}
+		if !bytes.Equal(expected, received) {
+			return errors.Errorf("auto-received block %v differs from the generated one in fields not covered by the hash", block.Hash)
 		}
 		return nil
 	default:
